@@ -52,3 +52,11 @@ Proof.
         (conj dbml_project_leads (conj dbml_group_leads dbml_reference_leads))))))).
 Qed.
 Print Assumptions C14_dbml_elements_emit_their_comment_first.
+
+(* ---- the comment helpers these theorems are about are the ones in the source: regenerated from the source text of
+   tools.comment, dbml utils.comment_to_dbml and sql utils.comment_to_sql on every run (coq/gen/GenFns.v) ---- *)
+From PyDBML Require Import GenFns GenFnTie.
+Theorem C14_comment_helpers_regenerated_from_source :
+  (forall v c, gen_comment v c = comment v c) /\ (forall v, gen_comment_to_dbml v = comment_to_dbml v) /\ (forall v, gen_comment_to_sql v = comment_to_sql v).
+Proof. exact (conj gen_comment_is_model (conj gen_comment_to_dbml_is_model gen_comment_to_sql_is_model)). Qed.
+Print Assumptions C14_comment_helpers_regenerated_from_source.
